@@ -105,20 +105,37 @@ def run(args, rep):
     rep.sample({'plan': jobs[len(h12) + 1]['plan'], 'schedule': jobs[len(h12) + 1]['sched'],
                 'observed': [{k: c[k] for k in ('t', 'k', 'args_same', 'result_is_fresh')} for c in obs[len(h12) + 1]['calls']]})
 
-    # (3) single-process histories over real modules vs fresh processes; hash seeds
+    # (3) single-process histories vs fresh processes; hash seeds
     files, skipped = corpus.stdlib('3.12', 40 if args.tier == 'quick' else 150)
     srcs = [(p, b) for p, b in files] + [(p, b) for p, b in corpus.repo_sources()][:30]
-    reqs = [{'op': 'minify', 'id': p, 'src_b64': inputs.b64(b), 'as_bytes': True, 'opts': {'rename_globals': True}} for p, b in srcs]
-    versions = ['3.12'] if args.tier == 'quick' else [v for v in ('3.12', '3.13', '3.8', '2.7') if v in available_versions()]
+    # modules that share sub-structure (the same literals in nested and plain f-strings, the same names in different roles): anything the
+    # minifier memoises per process would carry over between them
+    family = []
+    for lit in ('k', 'key_name', "it's"):
+        q = repr(lit)
+        family += [('shared:nested2:%s' % lit, 'row = {%s: 1}\nx = f"""{f\'{row[%s]}\'}"""\n' % (q, q.replace("'", '"') if "'" not in lit else q)),
+                   ('shared:plain:%s' % lit, 'table = {%s: 2}\ny = f"{table[%s]}"\n' % (q, q.replace('"', "'") if '"' not in lit and "'" not in lit else q)),
+                   ('shared:spec:%s' % lit, 'a = {%s: 3}\nw = 4\nz = f\'{a[%s]!r:>{w}}\'\n' % (q, q.replace("'", '"') if "'" not in lit else q)),
+                   ('shared:str:%s' % lit, 'v = [%s, %s, %s, %s]\ndef f(p=%s):\n    return p + %s\n' % (q, q, q, q, q, q))]
+    family += [('shared:names:1', 'def alpha(value):\n    total = value + 1\n    return total\nprint(alpha(1))\n'),
+               ('shared:names:2', 'total = 5\ndef alpha(total_value):\n    value = total_value * total\n    return value\nprint(alpha(2))\n'),
+               ('shared:nums', 'x = 1 + 1.0\ny = [1, 1.0, True, 0, 0.0, False]\nz = 60 * 60\n'),
+               ('shared:nums2', 'x = 1.0 + 1\ny = [True, 1.0, 1]\nz = 60 * 60 * 1.0\n')]
+    versions = ['3.12', '3.11'] if args.tier == 'quick' else [v for v in ('3.12', '3.11', '3.13', '3.8', '3.6', '2.7') if v in available_versions()]
+    versions = [v for v in versions if v in available_versions()]
     for v in versions:
         if v != '3.12':
-            f2, _ = corpus.stdlib(v, 60)
-            rq = [{'op': 'minify', 'id': p, 'src_b64': inputs.b64(b), 'as_bytes': True, 'opts': {'rename_globals': True}} for p, b in f2]
+            f2, _ = corpus.stdlib(v, 30 if args.tier == 'quick' else 60)
+            base = [(p, b) for p, b in f2]
         else:
-            rq = reqs
-        # one process handling every request in sequence (a long history) ...
-        hist_res = pool.run_requests(v, rq, procs=1, timeout=300, hashseed='0')
-        # ... against many short-lived processes with shuffled assignment and different hash seeds
+            base = srcs
+        base = base + inputs.shapes(v) + ([(n, t.encode()) for n, t in family] if v != '2.7' else [])
+        rq = [{'op': 'minify', 'id': p, 'src_b64': inputs.b64(b), 'as_bytes': True, 'opts': {'rename_globals': True}} for p, b in base]
+        # two long histories in one process each - every request in one order and in the reverse order, so that for every ordered pair (A, B)
+        # one of them runs A some time before B ...
+        hist_fwd = pool.run_requests(v, rq, procs=1, timeout=300, hashseed='0')
+        hist_rev = pool.run_requests(v, list(reversed(rq)), procs=1, timeout=300, hashseed='0')
+        # ... against short-lived processes: shuffled assignment, one request per process for the shared-structure family, different hash seeds
         seeds = ['0', '1', '12345', '4294967295'] if args.tier == 'quick' else [str(x) for x in [0, 1, 2, 3, 7, 42, 1000, 12345, 99999, 2 ** 31, 4294967295] + [rng.randrange(2 ** 32) for _ in range(21)]]
         ref = None
         for s in seeds:
@@ -127,17 +144,26 @@ def run(args, rep):
             res = pool.run_requests(v, rq2, procs=16, timeout=300, hashseed=s)
             if ref is None:
                 ref = res
+                # truly fresh: one process per request for the family and the shape bank
+                small = [q for q in rq if q['id'].startswith(('shared:', 'shape:'))]
+                from concurrent.futures import ThreadPoolExecutor
+                with ThreadPoolExecutor(max_workers=12) as ex:
+                    fresh_list = list(ex.map(lambda q: pool.run_requests(v, [q], procs=1, timeout=120, hashseed='0').get(q['id'], {}), small))
+                for q, a in zip(small, fresh_list):
+                    ref[q['id']] = a
                 for q in rq:
-                    a, b = hist_res.get(q['id'], {}), res.get(q['id'], {})
-                    if 'worker_error' in a or 'worker_error' in b:
-                        continue
-                    records.append({'id': 'history|%s|%s' % (v, q['id']), 'kind': 'history',
-                                    'equal': a.get('out_b64') == b.get('out_b64') and a.get('outcome') == b.get('outcome')})
-                    rep.evaluations += 1
+                    b = ref.get(q['id'], {})
+                    for hname, hist_res in (('fwd', hist_fwd), ('rev', hist_rev)):
+                        a = hist_res.get(q['id'], {})
+                        if 'worker_error' in a or 'worker_error' in b or not a or not b:
+                            continue
+                        records.append({'id': 'history-%s|%s|%s' % (hname, v, q['id']), 'kind': 'history',
+                                        'equal': a.get('out_b64') == b.get('out_b64') and a.get('outcome') == b.get('outcome')})
+                        rep.evaluations += 1
             else:
                 for q in rq:
                     a, b = ref.get(q['id'], {}), res.get(q['id'], {})
-                    if 'worker_error' in a or 'worker_error' in b:
+                    if 'worker_error' in a or 'worker_error' in b or not a or not b:
                         continue
                     records.append({'id': 'seed%s|%s|%s' % (s, v, q['id']), 'kind': 'seed',
                                     'equal': a.get('out_b64') == b.get('out_b64') and a.get('outcome') == b.get('outcome')})
